@@ -414,6 +414,7 @@ func checkFlow(p flowParams, x *verifkit.Exec) []verifkit.Violation {
 	a.checkRecovery(x)
 	a.checkWindow()
 	a.checkUnlimitedWindow(x)
+	a.checkNothingRejected(x)
 	a.checkControl(x)
 	a.checkReconf(x)
 	a.checkApply(x)
@@ -663,6 +664,24 @@ func (a *analysis) checkRecovery(x *verifkit.Exec) {
 			break
 		}
 	}
+	// ... and the counterpart: recovery may only give up ("failed to recover ... after N attempts") when the retries
+	// made within the configured window really exhausted the budget - attempts made long ago do not count
+	if maxRetries > 0 && fatalInjected == "" && forceless(a.evs) && len(p.Ctl) == 0 && !x.StepCapHit {
+		for _, e := range a.evs {
+			if e.Comp == "lc" && e.Kind == "failure" && strings.Contains(e.Arg, "failed to recover pipeline") {
+				n := 0
+				for _, t := range autoRestarts {
+					if t <= e.T && e.T-t < rec.MaxRetriesWindow {
+						n++
+					}
+				}
+				if int64(n) < maxRetries {
+					a.bad("C10/recovery-gave-up-early/"+p.Engine, "recovery gave up (%s, event #%d) although only %d automatic restart(s) fall into the last %v; MaxRetries is %d per window (restarts at %v)", firstLine(e.Arg), e.Seq, n, rec.MaxRetriesWindow, maxRetries, autoRestarts)
+				}
+				break
+			}
+		}
+	}
 	// R7: a transient cause leads to an automatic restart: a run whose first failure is transient, with nobody stopping
 	// the pipeline, must not simply end stopped (no Recovering / Degraded status, no restart)
 	if transientSeq >= 0 && fatalInjected == "" && userStopSeq < 0 && shutdownSeq < 0 && forceless(a.evs) && len(p.Ctl) == 0 && !x.StepCapHit && x.W.SlowestAnswer() < 5*time.Second {
@@ -767,6 +786,24 @@ func restartedBefore(evs []verifkit.Event, from, to int) bool {
 		}
 	}
 	return false
+}
+
+func firstLine(t string) string {
+	if i := strings.Index(t, "\n"); i >= 0 {
+		t = t[:i]
+	}
+	if len(t) > 160 {
+		t = t[:160]
+	}
+	return t
+}
+
+// applyKind returns the kind ("conn", "proc", ...) of the n-th (1-based) apply of the scenario.
+func applyKind(specs []string, n int) string {
+	if n < 1 || n > len(specs) {
+		return ""
+	}
+	return strings.Split(strings.TrimPrefix(specs[n-1], "||"), "+")[0]
 }
 
 // alwaysShort reports whether a processor of the scenario answers "short" (not "short once") for some record.
@@ -1303,7 +1340,13 @@ func (a *analysis) checkApply(x *verifkit.Exec) {
 	for _, j := range okApplies {
 		for _, i := range okApplies {
 			if i.idx != j.idx && i.retSeq > j.beginSeq && i.retSeq < j.retSeq && i.stored != j.base && i.stored != "" && j.base != "" {
-				a.bad("C16/stale-plan-applied", "apply #%d was planned against the stored configuration %q; apply #%d then changed it to %q and returned (event #%d), yet apply #%d was not refused as stale and returned nil (event #%d)", j.idx, j.base, i.idx, i.stored, i.retSeq, j.idx, j.retSeq)
+				key := "C16/stale-plan-applied"
+				if ki, kj := applyKind(a.p.Apply, i.idx), applyKind(a.p.Apply, j.idx); ki == kj && ki != "" {
+					// both applies change the SAME fields (to different values): the plan hash covers the changed paths and the
+					// new values, not the values being replaced
+					key += "/same-fields-changed-by-both-applies"
+				}
+				a.bad(key, "apply #%d was planned against the stored configuration %q; apply #%d then changed it to %q and returned (event #%d), yet apply #%d was not refused as stale and returned nil (event #%d)", j.idx, j.base, i.idx, i.stored, i.retSeq, j.idx, j.retSeq)
 			}
 		}
 	}
@@ -1365,6 +1408,38 @@ func (a *analysis) checkUnlimitedWindow(x *verifkit.Exec) {
 	for k, seq := range dlqAcked {
 		if !srcAcked[k] && final == "Running" {
 			a.bad("C07/dead-lettered-record-not-acknowledged/"+p.Engine, "record %d of %s was confirmed by the DLQ (event #%d) but never acknowledged to its source although the pipeline kept running", k.idx, k.src, seq)
+		}
+	}
+}
+
+// checkNothingRejected: when no plugin rejects or fails anything (destinations confirm, processors pass every record,
+// nobody stops the pipeline) no record may end up in the DLQ: a record that only passes through - e.g. because the
+// processor's condition does not match it - stays in its place and is delivered.
+func (a *analysis) checkNothingRejected(x *verifkit.Exec) {
+	p := a.p
+	if p.Stop != "" || len(p.Ctl) > 0 || len(p.Apply) > 0 || len(p.Reconf) > 0 || p.Faults || len(p.ReadMenu) > 0 || len(p.Blocked) > 0 ||
+		p.GateDestOpen || p.GateDLQOpen || len(p.GateSrcOpen) > 0 || p.SrcPositions != "" || len(p.FailDispense) > 0 || len(p.AckScript) > 0 || len(p.Reject) > 0 {
+		return
+	}
+	for _, m := range p.AckMenu {
+		if m != "ok" && m != "defer" {
+			return
+		}
+	}
+	for _, pr := range p.Procs {
+		for _, k := range pr.Kinds {
+			if k != "p" && k != "" {
+				return
+			}
+		}
+	}
+	for _, e := range a.evs {
+		if e.Comp == "end" {
+			break
+		}
+		if e.Comp == "dlq" && e.Kind == "recv" {
+			a.bad("C09/record-dead-lettered-although-nothing-rejected-it/"+p.Engine, "record %d was written to the DLQ (event #%d: %s) although every destination confirms, every processor passes every record and nobody stopped the pipeline", e.Idx, e.Seq, e.Arg)
+			return
 		}
 	}
 }
